@@ -90,6 +90,26 @@ func (s *sc) start(id string, n, k int, mbcv int) {
 	s.seq++
 	wallets := []actor{s.newAddr(), s.newAddr()}
 	s.outs = append(s.outs, wallets...)
+	// genesis indexes: contiguous 1..n, sparse (a gap below the highest), permuted, or large and sparse: all valid for
+	// CheckVBFTConfig; the next free index must lie above the highest one
+	idx := make([]int, len(s.vals))
+	for i := range idx {
+		idx[i] = i + 1
+	}
+	switch s.seq % 4 {
+	case 1:
+		if len(idx) > 0 {
+			idx[len(idx)-1] += 1 + s.r.Rng.Intn(3) // 1,2,3,5
+		}
+	case 2:
+		for i, p := range s.r.Rng.Perm(len(idx)) {
+			idx[i] = 2*p + 2 // permuted and sparse: e.g. 6,2,8,4
+		}
+	case 3:
+		for i, p := range s.r.Rng.Perm(len(idx)) {
+			idx[i] = 1000 + 7*p + s.r.Rng.Intn(5)
+		}
+	}
 	var peers []string
 	for i, a := range s.vals {
 		owner := a.hex()
@@ -101,7 +121,7 @@ func (s *sc) start(id string, n, k int, mbcv int) {
 				owner = wallets[1].hex()
 			}
 		}
-		peers = append(peers, fmt.Sprintf("%d:%s:%s", i+1, a.pk, owner))
+		peers = append(peers, fmt.Sprintf("%d:%s:%s", idx[i], a.pk, owner))
 	}
 	s.do("init %d %s", mbcv, strings.Join(peers, " "))
 }
@@ -267,7 +287,16 @@ func (f *gov) genApprovals(s *sc) {
 			return strings.ReplaceAll(strings.ReplaceAll(format, "CID2", fmt.Sprint(8+16*h)), "CID", fmt.Sprint(7+16*h))
 		}
 		owner := s.newAddr()
+		if h%3 == 1 {
+			// the requester is the epoch's consensus operator (multi-signature address of the consensus keys): a
+			// request by the operator is still only a request
+			if op, ok := f.w.operator(); ok {
+				owner = actor{"", op}
+			}
+		}
 		var mk func(signer, claimed string) string
+		var mkID func(id string) func(signer, claimed string) string // the same approval for another request number
+		realID := uint64(0)
 		cand := s.extra[0]
 		switch kind {
 		case "appr":
@@ -286,19 +315,34 @@ func (f *gov) genApprovals(s *sc) {
 		case "scappr":
 			s.do(cf("screg %s %s CID 2 %s 1 aabb -"), owner.hex(), owner.hex(), hexName("chain7"))
 			mk = func(sg, c string) string { return fmt.Sprintf(cf("scappr %s CID %s"), sg, c) }
+			realID = uint64(7 + 16*h)
+			mkID = func(id string) func(sg, c string) string {
+				return func(sg, c string) string { return fmt.Sprintf("scappr %s %s %s", sg, id, c) }
+			}
 		case "scapprupd", "scapprquit":
 			s.do(cf("screg %s %s CID 2 %s 1 aabb -"), owner.hex(), owner.hex(), hexName("chain7"))
 			s.fullRound(func(sg, c string) string { return fmt.Sprintf(cf("scappr %s CID %s"), sg, c) })
 			if kind == "scapprupd" {
 				s.do(cf("scupd %s %s CID 3 %s 5 ccdd 01"), owner.hex(), owner.hex(), hexName("chain7b"))
 				mk = func(sg, c string) string { return fmt.Sprintf(cf("scapprupd %s CID %s"), sg, c) }
+				realID = uint64(7 + 16*h)
+				mkID = func(id string) func(sg, c string) string {
+					return func(sg, c string) string { return fmt.Sprintf("scapprupd %s %s %s", sg, id, c) }
+				}
 			} else {
 				s.do(cf("scquit %s CID %s"), owner.hex(), owner.hex())
 				mk = func(sg, c string) string { return fmt.Sprintf(cf("scapprquit %s CID %s"), sg, c) }
+				realID = uint64(7 + 16*h)
+				mkID = func(id string) func(sg, c string) string {
+					return func(sg, c string) string { return fmt.Sprintf("scapprquit %s %s %s", sg, id, c) }
+				}
 			}
 		case "rlappr":
 			s.do("rlreg %s %s %s,%s", owner.hex(), owner.hex(), s.outs[0].hex(), s.outs[1].hex())
 			mk = func(sg, c string) string { return fmt.Sprintf("rlappr %s 0 %s", sg, c) }
+			mkID = func(id string) func(sg, c string) string {
+				return func(sg, c string) string { return fmt.Sprintf("rlappr %s %s %s", sg, id, c) }
+			}
 		case "rlapprrm":
 			s.do("rlreg %s %s %s,%s", owner.hex(), owner.hex(), s.outs[0].hex(), s.outs[1].hex())
 			s.fullRound(func(sg, c string) string { return fmt.Sprintf("rlappr %s 0 %s", sg, c) })
@@ -309,9 +353,15 @@ func (f *gov) genApprovals(s *sc) {
 				s.do("rlrm %s %s %s,%s,%s,%s", owner.hex(), owner.hex(), s.outs[0].hex(), s.outs[1].hex(), s.outs[0].hex(), s.outs[2].hex())
 			}
 			mk = func(sg, c string) string { return fmt.Sprintf("rlapprrm %s 0 %s", sg, c) }
+			mkID = func(id string) func(sg, c string) string {
+				return func(sg, c string) string { return fmt.Sprintf("rlapprrm %s %s %s", sg, id, c) }
+			}
 		case "svappr":
 			s.do("svreg %s %s %s,%s", owner.hex(), owner.hex(), hexName("sv-one"), hexName("sv-two"))
 			mk = func(sg, c string) string { return fmt.Sprintf("svappr %s 0 %s", sg, c) }
+			mkID = func(id string) func(sg, c string) string {
+				return func(sg, c string) string { return fmt.Sprintf("svappr %s %s %s", sg, id, c) }
+			}
 		case "svapprrm":
 			s.do("svreg %s %s %s,%s", owner.hex(), owner.hex(), hexName("sv-one"), hexName("sv-two"))
 			s.fullRound(func(sg, c string) string { return fmt.Sprintf("svappr %s 0 %s", sg, c) })
@@ -325,6 +375,9 @@ func (f *gov) genApprovals(s *sc) {
 				s.do("svrm %s %s %s,%s,%s", owner.hex(), owner.hex(), hexName("sv-two"), hexName("sv-one"), hexName("sv-two"))
 			}
 			mk = func(sg, c string) string { return fmt.Sprintf("svapprrm %s 0 %s", sg, c) }
+			mkID = func(id string) func(sg, c string) string {
+				return func(sg, c string) string { return fmt.Sprintf("svapprrm %s %s %s", sg, id, c) }
+			}
 		}
 		// the approval sequence under test
 		var prev actor
@@ -345,6 +398,16 @@ func (f *gov) genApprovals(s *sc) {
 					s.do("appr %s %s %s", sg, s.extra[1].pk, c)
 				}
 			}
+			if mkID != nil && r.Rng.Chance(1, 6) {
+				// an approval for a request number that was never stored (neighbours of the real one, 0, 2^32, 2^63,
+				// 2^64-1) must fail without effect
+				b := []uint64{realID + 1, realID - 1, 0, 1 << 32, 1 << 63, ^uint64(0), realID + 2}
+				id := b[r.Rng.Intn(len(b))]
+				if id != realID {
+					sg, c := s.approver(&prev)
+					r.Do(mkID(fmt.Sprint(id))(sg, c))
+				}
+			}
 			if r.Rng.Chance(1, 8) {
 				// a pre-executed approval (nothing committed) must not count
 				sg, c := s.approver(&prev)
@@ -353,8 +416,15 @@ func (f *gov) genApprovals(s *sc) {
 			sg, c := s.approver(&prev)
 			r.Do(mk(sg, c))
 		}
+		if mkID != nil && r.Rng.Bool() {
+			// a whole approval round under an alias-like request number before the real round
+			s.fullRound(mkID(fmt.Sprint([]uint64{^uint64(0), realID + 1, 1 << 63}[r.Rng.Intn(3)])))
+		}
 		s.fullRound(mk) // make sure it fired
 		s.fullRound(mk) // C33: a second round must not apply anything
+		if mkID != nil {
+			s.fullRound(mkID(fmt.Sprint(^uint64(0))))
+		}
 		// the situation in which a re-application is visible, then a third round
 		switch kind {
 		case "scapprquit":
@@ -362,6 +432,7 @@ func (f *gov) genApprovals(s *sc) {
 			s.do(cf("screg %s %s CID 9 %s 2 eeff -"), other.hex(), other.hex(), hexName("chain7-new-owner"))
 			s.fullRound(func(sg, c string) string { return fmt.Sprintf(cf("scappr %s CID %s"), sg, c) })
 		case "rlapprrm":
+			s.fullRound(func(sg, c string) string { return fmt.Sprintf("rlappr %s 0 %s", sg, c) }) // the old, applied registration
 			s.do("rlreg %s %s %s", owner.hex(), owner.hex(), s.outs[0].hex())
 			s.fullRound(func(sg, c string) string { return fmt.Sprintf("rlappr %s 1 %s", sg, c) })
 		case "svapprrm":
@@ -432,6 +503,9 @@ func (f *gov) genRegistry(s *sc) {
 		n := 4 + h%4
 		s.start(fmt.Sprintf("registry-N%d-%d", n, h), n, 0, 100000)
 		owners := []actor{s.newAddr(), s.newAddr(), s.newAddr()}
+		if op, ok := f.w.operator(); ok && h%2 == 1 {
+			owners[2] = actor{"", op} // the consensus operator as a chain owner / requester
+		}
 		ids := []int{1 + 16*h, 2 + 16*h, 0xfffffffe - h}
 		var prev actor
 		if h%4 == 3 {
@@ -627,6 +701,17 @@ func (f *gov) genPool(s *sc) {
 			// directed: the member with the highest index leaves, a new candidate joins, the old member returns:
 			// indices stay distinct across epochs
 			top := s.vals[n-1]
+			best := uint32(0)
+			for _, it := range f.w.now().curPool() {
+				if it.Index >= best {
+					best = it.Index
+					for _, v := range s.vals {
+						if v.pk == it.Pk {
+							top = v
+						}
+					}
+				}
+			}
 			o := ownerOfKey(top.pk)
 			s.do("quit %s %s %s", o, top.pk, o)
 			nextBlock()
